@@ -371,18 +371,27 @@ Theorem Glue_ident_code_same : forall n, CA.code (toC n) = ID.code n.
 Proof. exact code_same. Qed.
 Print Assumptions Glue_ident_code_same.
 
-(* ident.decode: the two models agree on every code (byte strings in the attributes) ... *)
+(* ident.decode in C18's and in C19's model: ONE function on every string (Model/Cache.v's decode is Model/Ident.v's,
+   read into Cache.v's record) *)
+Theorem Glue_ident_decode_same :
+  forall s, CA.decode s = match ID.decode s with Ok m => Ok (toC m) | Err e => Err e end.
+Proof. exact decode_same. Qed.
+Print Assumptions Glue_ident_decode_same.
+
 Theorem Glue_ident_decode_same_on_codes :
   forall n, IDL.wfb n -> exists m, ID.decode (ID.code n) = Ok m /\ CA.decode (ID.code n) = Ok (toC m).
 Proof. exact decode_same_on_codes. Qed.
 Print Assumptions Glue_ident_decode_same_on_codes.
 
-(* ... and DISAGREE off the image of code(): the library follows Model/Ident.v (int("-1"), int("04") are indexes) *)
-Theorem Glue_ident_decode_disagreement_witness :
-  ID.decode (s2l "-1=a") = Ok (ID.nid_t (s2l "a")) /\ CA.decode (s2l "-1=a") = Ok CA.no_nid /\
-  ID.decode (s2l "04=a") = Ok (ID.nid_t (s2l "a")) /\ CA.decode (s2l "04=a") = Ok CA.no_nid.
-Proof. exact decode_disagreement_witness. Qed.
-Print Assumptions Glue_ident_decode_disagreement_witness.
+(* HISTORY: the one-digit decoder Model/Cache.v had before differed off the image of code(): the library follows
+   Model/Ident.v (int("-1"), int("04") are indexes) *)
+Theorem Glue_ident_decode_one_digit_witness :
+  ID.decode (s2l "-1=a") = Ok (ID.nid_t (s2l "a")) /\ CA.decode_one_digit (s2l "-1=a") = Ok CA.no_nid /\
+  CA.decode (s2l "-1=a") = Ok (toC (ID.nid_t (s2l "a"))) /\
+  ID.decode (s2l "04=a") = Ok (ID.nid_t (s2l "a")) /\ CA.decode_one_digit (s2l "04=a") = Ok CA.no_nid /\
+  CA.decode (s2l "04=a") = Ok (toC (ID.nid_t (s2l "a"))).
+Proof. exact decode_one_digit_witness. Qed.
+Print Assumptions Glue_ident_decode_one_digit_witness.
 End G3.
 
 (* ====================================================================================================
